@@ -204,3 +204,4 @@ def job_histories(ses, maxlen, which=('c13', 'c17'), shard=0, nshards=1):
                     if rec: ses.violation('builder sequence %s: exp presence wrong in the built token (acknowledged=%s)' % (seq, acked), fmt_model(['k%d' % i for i, _, _ in sets], rec), {'kind': 'c13'})
     ses.samples.append({'histories': len(seqs), 'example': seqs[min(5, len(seqs) - 1)]})
     ses.absorb(ex)
+BASELINE = ['c13']
